@@ -174,6 +174,8 @@ def check_tables(ctx, F, tag, prefix):
         if v[0] == "field" and v[2] in ("0", "1"):
             inter[k] = int(v[2])
     ok_inter = len(pushes) == 2 and sorted(inter.values()) == [0, 1]
+    if not pushes:
+        ok_inter = None      # the samples are not pushed in a loop (collected from an iterator, ..): the order cannot be read off here
     ctx.ob(prefix + ".samples-interleaved", FROM + tag, loc(fb.raw["span"]), ok_inter, "sequence-shape",
            "From<RLBuilder> pushes both components of every sample tuple, one after the other: position -> component %s" % {k: cname(v) for k, v in inter.items()})
     if not ok_inter:
